@@ -342,6 +342,8 @@ class Engine:
                 self.stats.choice_forks += 1
         self.pos += 1
         val = d.outcome
+        if isinstance(val, bool) or not isinstance(val, int) or not 0 <= val < max(n, 1):
+            raise Inconclusive("replay diverged at decision %d: choose(%s, %d) meets the recorded value %r" % (self.pos - 1, name, n, val))
         self._assume(v == val)
         self.pinned[v.get_id()] = val
         self._maybe_cut()
@@ -400,6 +402,10 @@ class Engine:
             return not self.known[expr.arg(0).get_id()]
         if self.pos < len(self.decisions):
             taken = self.decisions[self.pos].outcome
+            if not isinstance(taken, bool):
+                # the program did not ask the same questions as on the run that recorded this prefix: the harness is not
+                # deterministic here (never a property of the code under test)
+                raise Inconclusive("replay diverged at decision %d: a Boolean fork meets the recorded value %r" % (self.pos, taken))
             self.pos += 1
             self._assume(expr if taken else z3.Not(expr))
             return taken
